@@ -92,6 +92,195 @@ theorem expandClears_refines {sp : Spec} (hr : sp.clearRestamps = true) :
       rw [run_append]
       exact ih _
 
+/-! ### The `type` column in lock-free user histories (finding `nodes.type/...clear(exclude=classify_nodes)`, repaired:
+the in-place operators validate the caches before they run)
+
+`τ` maps a content of the hashed columns to the content of `node_id,parent_id` inside it (the topology columns are
+part of the hashed columns).  Invariant: the `type` column was computed from the topology of the *stamped*
+content; so whenever the stamp is current the `type` column is current — also after edit / undo. -/
+
+structure TInv (τ : Nat → Nat) (s : St) : Prop where
+  unlocked : s.lock = 0
+  topo : s.tver = τ s.ver
+  typ : s.typeVer = τ s.md5
+
+theorem TInv.current {τ : Nat → Nat} {s : St} (h : TInv τ s) (hm : s.md5 = s.ver) : s.typeVer = s.tver := by
+  rw [h.typ, h.topo, hm]
+
+/-- the common shape of the three validation steps (temp_property wrapper, lock_neuron entry, in-place operators) -/
+def checkPrims (sp : Spec) (s : St) : List Ev :=
+  if (isStaleS sp s).stale then [.isStale, .clear []] else [.isStale]
+
+theorem check_establishes {sp : Spec} (hs : SoundFacts sp) {τ : Nat → Nat} {s : St} (h : TInv τ s) :
+    TInv τ (run sp s (checkPrims sp s)) ∧ (run sp s (checkPrims sp s)).md5 = (run sp s (checkPrims sp s)).ver ∧
+    (run sp s (checkPrims sp s)).ver = s.ver ∧ (run sp s (checkPrims sp s)).tver = s.tver := by
+  obtain ⟨f1, _, f3, f4, _, f6, f7⟩ := isStaleS_fields sp s
+  unfold checkPrims
+  by_cases hst : (isStaleS sp s).stale = true
+  · rw [if_pos hst]
+    have e1 : run sp s [.isStale, .clear []] = classifyS (clearBase sp [] (isStaleS sp s)) := by
+      show clearS sp [] (isStaleS sp s) = _
+      unfold clearS; rw [if_neg (by decide)]
+    have hb : clearBase sp [] (isStaleS sp s) =
+        { isStaleS sp s with md5 := (isStaleS sp s).ver, stale := false,
+                              cache := if sp.clearDeletes then retained sp [] (isStaleS sp s).cache else (isStaleS sp s).cache } := by
+      unfold clearBase
+      simp [f4, h.unlocked, hs.restamps]
+    rw [e1, hb]
+    refine ⟨⟨?_, ?_, ?_⟩, ?_, ?_, ?_⟩
+    · show (isStaleS sp s).lock = 0; rw [f4]; exact h.unlocked
+    · show (isStaleS sp s).tver = τ (isStaleS sp s).ver; rw [f6, f1]; exact h.topo
+    · show (isStaleS sp s).tver = τ (isStaleS sp s).ver; rw [f6, f1]; exact h.topo
+    · rfl
+    · exact f1
+    · exact f6
+  · rw [if_neg hst]
+    have hst' : (isStaleS sp s).stale = false := by simpa using hst
+    have hmd : s.md5 = s.ver := by
+      unfold isStaleS at hst'
+      by_cases hc : (sp.isStaleSticky && s.stale) = true
+      · rw [if_pos hc] at hst'
+        simp only [Bool.and_eq_true] at hc
+        rw [hc.2] at hst'; exact absurd hst' (by decide)
+      · rw [if_neg hc, if_pos hs.recomputes] at hst'
+        simpa using hst'
+    have e1 : run sp s [.isStale] = isStaleS sp s := rfl
+    rw [e1]
+    exact ⟨⟨by rw [f4]; exact h.unlocked, by rw [f6, f1]; exact h.topo, by rw [f7, f3]; exact h.typ⟩,
+      by rw [f3, f1]; exact hmd, f1, f6⟩
+
+theorem wrapperPrims_check {sp : Spec} (hs : SoundFacts sp) {s : St} (hl : s.lock = 0) :
+    wrapperPrims sp s = checkPrims sp s := by
+  unfold wrapperPrims checkPrims; simp [hs.wrapper, hl]
+
+theorem lockEntryPrims_check {sp : Spec} (hf : sp.lockChecksStale = true) {s : St} (hl : s.lock = 0) :
+    lockEntryPrims sp s = checkPrims sp s := by
+  unfold lockEntryPrims checkPrims; simp [hf, hl]
+
+theorem validatePrims_check {sp : Spec} (hv : sp.iopValidates = true) {s : St} (hl : s.lock = 0) :
+    validatePrims sp s = checkPrims sp s := by
+  unfold validatePrims checkPrims; simp [hv, hl]
+
+theorem TInv_fill {sp : Spec} {τ : Nat → Nat} {s : St} (h : TInv τ s) (v : View) :
+    TInv τ (run sp s (fillPrims s v)) := by
+  obtain ⟨t1, t2, t3, t4⟩ := fill_type sp s v
+  exact ⟨by rw [fill_lock]; exact h.unlocked, by rw [t1, t4]; exact h.topo, by rw [t2, t3]; exact h.typ⟩
+
+/-- state-dependent admissibility of a user event for the `type` invariant: an edit to content `v` has the
+topology `τ v`; in-place arithmetic that skips the re-classification leaves the topology columns alone -/
+def UAdmT (sp : Spec) (τ : Nat → Nat) (s : St) : UEv → Prop
+  | .edit v t => t = τ v
+  | .setNodes v t => t = τ v
+  | .arith v t excl => knownExcl sp excl = true ∧
+      (if excl.contains "classify_nodes" then τ v = s.tver else t = τ v)
+  | _ => True
+
+def uadmT (sp : Spec) (τ : Nat → Nat) : St → List UEv → Prop
+  | _, [] => True
+  | s, u :: us => UAdmT sp τ s u ∧ uadmT sp τ (ustep sp s u) us
+
+theorem TInv_ustep {sp : Spec} (hs : SoundFacts sp) (hf : sp.lockChecksStale = true) (hv : sp.iopValidates = true)
+    {τ : Nat → Nat} {s : St} (h : TInv τ s) (u : UEv) (hu : UAdmT sp τ s u) : TInv τ (ustep sp s u) := by
+  cases u with
+  | read v =>
+    show TInv τ (readS sp s v)
+    rw [readS_eq]
+    by_cases hw : v.wrapped = true
+    · have hp : viewPrefix sp s v = checkPrims sp s := by
+        simp only [viewPrefix, hw, if_true]; exact wrapperPrims_check hs h.unlocked
+      rw [hp]
+      exact TInv_fill (check_establishes hs h).1 v
+    · have hp : viewPrefix sp s v = [] := by simp [viewPrefix, hw]
+      rw [hp]
+      exact TInv_fill h v
+  | edit v t =>
+    have ht : t = τ v := hu
+    exact ⟨h.unlocked, ht, h.typ⟩
+  | setNodes v t =>
+    have ht : t = τ v := hu
+    have h1 : TInv τ (step sp s (.change v t)) := ⟨h.unlocked, ht, h.typ⟩
+    show TInv τ (run sp s ([.change v t] ++ lockedCall sp (step sp s (.change v t)) [.classify] false))
+    rw [run_append]
+    show TInv τ (run sp (step sp s (.change v t)) (lockedCall sp (step sp s (.change v t)) [.classify] false))
+    generalize step sp s (.change v t) = s1 at h1
+    unfold lockedCall
+    simp only [Bool.false_and, Bool.false_eq_true, if_false]
+    rw [List.append_assoc, List.append_assoc, run_append, lockEntryPrims_check hf h1.unlocked]
+    obtain ⟨k, km, _, _⟩ := check_establishes hs (sp := sp) h1
+    generalize run sp s1 (checkPrims sp s1) = s2 at k km
+    refine ⟨?_, k.topo, ?_⟩
+    · show s2.lock + 1 - 1 = 0; rw [k.unlocked]
+    · show s2.tver = τ s2.md5; rw [k.topo, km]
+  | arith v t excl =>
+    obtain ⟨hk, hcase⟩ := hu
+    show TInv τ (run sp s (validatePrims sp s ++ _))
+    rw [run_append, validatePrims_check hv h.unlocked]
+    obtain ⟨k, km, _, ktv⟩ := check_establishes hs (sp := sp) h
+    generalize run sp s (checkPrims sp s) = s1 at k km ktv
+    by_cases hx : excl.contains "classify_nodes" = true
+    · rw [if_pos hx] at hcase ⊢
+      -- change to `v` with the topology left alone, then an effective clear without re-classification
+      have e : run sp s1 [.change v s1.tver, .clear excl] =
+          clearBase sp excl { s1 with ver := v, tver := s1.tver, hi := max s1.hi (v + 1) } := by
+        show clearS sp excl _ = _
+        unfold clearS; rw [if_pos hx]; rfl
+      have hb : clearBase sp excl { s1 with ver := v, tver := s1.tver, hi := max s1.hi (v + 1) } =
+          { s1 with ver := v, hi := max s1.hi (v + 1), md5 := v, stale := false,
+                    cache := if sp.clearDeletes then retained sp excl s1.cache else s1.cache } := by
+        unfold clearBase
+        simp [k.unlocked, hs.restamps]
+      rw [e, hb]
+      refine ⟨k.unlocked, ?_, ?_⟩
+      · show s1.tver = τ v; rw [ktv]; exact hcase.symm
+      · show s1.typeVer = τ v; rw [k.typ, km, ← k.topo, ktv]; exact hcase.symm
+    · rw [if_neg hx] at hcase ⊢
+      have e : run sp s1 [.change v t, .clear excl] =
+          classifyS (clearBase sp excl { s1 with ver := v, tver := t, hi := max s1.hi (v + 1) }) := by
+        show clearS sp excl _ = _
+        unfold clearS; rw [if_neg hx]; rfl
+      have hb : clearBase sp excl { s1 with ver := v, tver := t, hi := max s1.hi (v + 1) } =
+          { s1 with ver := v, tver := t, hi := max s1.hi (v + 1), md5 := v, stale := false,
+                    cache := if sp.clearDeletes then retained sp excl s1.cache else s1.cache } := by
+        unfold clearBase
+        simp [k.unlocked, hs.restamps]
+      rw [e, hb]
+      exact ⟨k.unlocked, hcase, hcase⟩
+  | isStale =>
+    obtain ⟨f1, _, f3, f4, _, f6, f7⟩ := isStaleS_fields sp s
+    exact ⟨by show (isStaleS sp s).lock = 0; rw [f4]; exact h.unlocked,
+      by show (isStaleS sp s).tver = τ (isStaleS sp s).ver; rw [f6, f1]; exact h.topo,
+      by show (isStaleS sp s).typeVer = τ (isStaleS sp s).md5; rw [f7, f3]; exact h.typ⟩
+  | copyOut =>
+    obtain ⟨f1, _, f3, f4, _, f6, f7⟩ := isStaleS_fields sp s
+    exact ⟨by show (isStaleS sp s).lock = 0; rw [f4]; exact h.unlocked,
+      by show (isStaleS sp s).tver = τ (isStaleS sp s).ver; rw [f6, f1]; exact h.topo,
+      by show (isStaleS sp s).typeVer = τ (isStaleS sp s).md5; rw [f7, f3]; exact h.typ⟩
+  | copy =>
+    have hu' : TInv τ (unlocked sp s) := ⟨by simp [unlocked, h.unlocked], h.topo, h.typ⟩
+    show TInv τ (copyS sp s)
+    unfold copyS
+    split
+    · split
+      · have hb : clearBase sp [] (unlocked sp s) =
+            { unlocked sp s with md5 := (unlocked sp s).ver, stale := false,
+                                 cache := if sp.clearDeletes then retained sp [] (unlocked sp s).cache else (unlocked sp s).cache } := by
+          unfold clearBase
+          simp [hu'.unlocked, hs.restamps]
+        have e : clearS sp [] (unlocked sp s) = classifyS (clearBase sp [] (unlocked sp s)) := by
+          unfold clearS; rw [if_neg (by decide)]
+        rw [e, hb]
+        exact ⟨hu'.unlocked, hu'.topo, hu'.topo⟩
+      · exact hu'
+    · exact hu'
+  | pickle => exact ⟨h.unlocked, h.topo, h.typ⟩
+
+theorem TInv_urun {sp : Spec} (hs : SoundFacts sp) (hf : sp.lockChecksStale = true) (hv : sp.iopValidates = true)
+    {τ : Nat → Nat} : ∀ (us : List UEv) (s : St), TInv τ s → uadmT sp τ s us → TInv τ (urun sp s us) := by
+  intro us
+  induction us with
+  | nil => intro s h _; exact h
+  | cons u us ih => intro s h hu; exact ih _ (TInv_ustep hs hf hv h u hu.1) hu.2
+
 /-! ### Objects shared between a neuron and its copy -/
 
 structure PairInv (shared : Bool) (p : Pair) : Prop where
